@@ -7,17 +7,18 @@ EXTENDS Fn
 CONSTANTS QUICK
 VARIABLES l, r, b, t, n, f, g, asp, h, phase
 vars == <<l, r, b, t, n, f, g, asp, h, phase>>
-Vals == IF QUICK THEN {<<-1, 2>>, R(1), R(3)} ELSE {R(-2), <<-1, 2>>, R(1), R(2), R(5)}
+\* thorough: 16 * 9 * 20 * 128 = 368 640 parameter tuples
+Vals == IF QUICK THEN {<<-1, 2>>, R(1), R(3)} ELSE {R(-2), <<-1, 2>>, R(1), R(5)}
 Pos  == IF QUICK THEN {<<1, 2>>, R(2)} ELSE {<<1, 2>>, R(1), R(3)}
-BVals == IF QUICK THEN {<<-1, 2>>, R(3)} ELSE Vals
+BVals == IF QUICK THEN {<<-1, 2>>, R(3)} ELSE {<<-1, 2>>, R(1), R(3)}
 FovsAll == {<<0, 1, 2, 0>>, <<2, 1, -2, 0>>, <<-2, 1, 4, 0>>, <<0, 1, 0, 0>>, <<2, 1, 0, 0>>, <<0, 1, -2, 0>>, <<4, 1, -4, 0>>, <<-2, 1, 0, 0>>}
 Fovs == IF QUICK THEN {<<0, 1, 2, 0>>, <<-2, 1, 4, 0>>, <<0, 1, 0, 0>>, <<2, 1, 0, 0>>, <<0, 1, -2, 0>>} ELSE FovsAll
-Asps == IF QUICK THEN {<<16, 9>>, R(0), R(-2)} ELSE {<<1, 2>>, R(1), <<16, 9>>, R(0), R(-2)}
+Asps == IF QUICK THEN {<<16, 9>>, R(0), R(-2)} ELSE {<<1, 2>>, <<16, 9>>, R(0), R(-2)}
 Init == l = Zero /\ r = One /\ b = Zero /\ t = One /\ n = One /\ f = Two /\ g = AZero /\ asp = One /\ h = One /\ phase = "lr"
 Next == \/ phase = "lr" /\ \E x \in Vals, y \in Vals : l' = x /\ r' = y /\ phase' = "bt" /\ UNCHANGED <<b, t, n, f, g, asp, h>>
         \/ phase = "bt" /\ \E x \in BVals, y \in BVals : b' = x /\ t' = y /\ phase' = "nf" /\ UNCHANGED <<l, r, n, f, g, asp, h>>
         \/ phase = "nf" /\ \E x \in Pos \cup {R(0), R(-1)}, y \in Pos \cup {R(-1)} : n' = x /\ f' = y /\ phase' = "fov" /\ UNCHANGED <<l, r, b, t, g, asp, h>>
-        \/ phase = "fov" /\ \E x \in Fovs, y \in Asps, z \in (IF QUICK THEN {<<1, 2>>, R(2), R(-1)} ELSE Pos \cup {R(-1), R(0)}) : g' = x /\ asp' = y /\ h' = z /\ phase' = "done" /\ UNCHANGED <<l, r, b, t, n, f>>
+        \/ phase = "fov" /\ \E x \in Fovs, y \in Asps, z \in (IF QUICK THEN {<<1, 2>>, R(2), R(-1)} ELSE {<<1, 2>>, R(3), R(-1), R(0)}) : g' = x /\ asp' = y /\ h' = z /\ phase' = "done" /\ UNCHANGED <<l, r, b, t, n, f>>
 Spec == Init /\ [][Next]_vars
 Done == phase = "done"
 \* ortho: defined on non-degenerate boxes
